@@ -178,14 +178,14 @@ def replay_doc(ctx, doc, n, variant=None):
                 if not grid_ok(np.asarray(got.values, dtype=float).reshape(len(wantc), -1), wantc):
                     viol("condensed/wrong_value", f"= {got.values.tolist()} want {wantc}")
         elif fn == "renyi2":
-            base = (2.0, math.e, 10.0)[n % 3]
+            base = (2.0, math.e, 10.0, 0.5, 0.1)[(n // 7) % 5]
             by_arg = by if opt["by"] else None
             ctx.case(dict(fn="renyi2_entropy", tab=tab, joint=opt["joint"], by=bool(opt["by"]), base=base), nontrivial=True)
             got = float(prs.renyi2_entropy(df, on, by=by_arg, base=base))
             if estim.is_nan_rat(res):
                 ok = math.isnan(got)
             elif res[0] == 0:
-                ok = math.isinf(got) and got > 0
+                ok = math.isinf(got) and (got > 0) == (base > 1)        # -log_base(0): +inf for base > 1, -inf for base < 1
             else:
                 ok = (not math.isnan(got)) and abs(base ** (-got) - res[0] / res[1]) < 1e-9
             if not ok:
@@ -213,7 +213,7 @@ def std_entropy_part(ctx, n):
     out = estim.evaluate(ctx, sessions)
     for sid, (counts, df) in tabs.items():
         spec = out[sid]
-        base = (2.0, math.e)[sid % 2]
+        base = (2.0, math.e, 0.5, 10.0, 0.25)[sid % 5]
         feats = "CDR3B" if sid % 2 else ["CDR3B", "extra"]
         ctx.case(dict(fn="stdrenyi2_entropy", counts=counts, base=base, joint=isinstance(feats, list)), nontrivial=True)
         ctx.traces += 1
